@@ -677,6 +677,56 @@ pub fn c13(ctx: &mut Ctx) {
                 }
             }
         }
+        // a record EMBEDDED in a message: list[ u64, record, bytes, record, u64 ] read field by field with the
+        // RLP library's own primitives (what a wire protocol does): each field must be found where it starts
+        if !cfg!(miri) {
+            let r1 = valid.clone();
+            let r2b = gen::random_valid(&mut r, pool(scheme)).bytes();
+            let blob_len = below(&mut r, 40) as usize;
+            let blob = rand_bytes(&mut r, blob_len);
+            let mut payload = rlp::enc_uint(0x1122_3344);
+            payload.extend_from_slice(&r1);
+            payload.extend_from_slice(&rlp::enc_str(&blob));
+            payload.extend_from_slice(&r2b);
+            payload.extend_from_slice(&rlp::enc_uint(7));
+            let msg = rlp::enc_list_payload(&payload);
+            for &kt in &kts {
+                fn read<K: EnrKey>(msg: &[u8]) -> Result<(u64, Vec<u8>, Vec<u8>, Vec<u8>, u64, usize), String> {
+                    guard(|| {
+                        let mut b = msg;
+                        let mut p = alloy_rlp::Header::decode_bytes(&mut b, true).map_err(|e| format!("{e:?}"))?;
+                        let a = u64::decode(&mut p).map_err(|e| format!("a: {e:?}"))?;
+                        let e1 = Enr::<K>::decode(&mut p).map_err(|e| format!("record 1: {e:?}"))?;
+                        let blob = bytes::Bytes::decode(&mut p).map_err(|e| format!("blob: {e:?}"))?;
+                        let e2 = Enr::<K>::decode(&mut p).map_err(|e| format!("record 2: {e:?}"))?;
+                        let z = u64::decode(&mut p).map_err(|e| format!("z: {e:?}"))?;
+                        Ok((a, alloy_rlp::encode(&e1), blob.to_vec(), alloy_rlp::encode(&e2), z, p.len() + b.len()))
+                    })
+                    .unwrap_or_else(|p| Err(format!("panic: {p}")))
+                }
+                let got = match kt {
+                    KT::K256 => read::<k256::ecdsa::SigningKey>(&msg),
+                    #[cfg(feature = "libsecp")]
+                    KT::Libsecp => read::<secp256k1::SecretKey>(&msg),
+                    #[cfg(not(feature = "libsecp"))]
+                    KT::Libsecp => continue,
+                    KT::Ed => read::<<EdK as KeyKind>::K>(&msg),
+                    KT::Comb => read::<<CombK as KeyKind>::K>(&msg),
+                    KT::Toy => read::<ToyKey>(&msg),
+                };
+                ctx.count("evaluations");
+                ctx.count("stream.embedded-records");
+                let replay = || json!({"kind": "note", "what": "embedded-record", "kt": kt.name(), "message": hex(&msg)});
+                match got {
+                    Ok((a, e1, bl, e2, z, left)) => {
+                        if a != 0x1122_3344 || e1 != r1 || bl != blob || e2 != r2b || z != 7 || left != 0 {
+                            ctx.violate("C13", "embedded-record-moves-the-cursor-wrongly", kt.name(), || format!("fields read back differ (left over {left})"), replay);
+                        }
+                    }
+                    Err(e) => ctx.violate("C13", "embedded-record-moves-the-cursor-wrongly", kt.name(), || format!("message of {} bytes: {e}", msg.len()), replay),
+                }
+            }
+        }
         // back-to-back sequences and RLP lists of 1..=8 valid records
         for n in 1..=8usize {
             if cfg!(miri) && ctx.expired() {
